@@ -35,13 +35,15 @@ impl<F: AsFd, E> Generic<F, E> {
 //@ endregion
 
 //@ open src/sources/generic.rs / impl Generic<F, std::io::Error>
-//@ item src/sources/generic.rs / impl Generic<F, std::io::Error> / fn new props=C16 ret=r
+//@ item src/sources/generic.rs / impl Generic<F, std::io::Error> / fn new props=C16,C03 ret=r
 //@ spec
         ensures r.tok() is None, !r.has_poller(), r.has_file(),
+                r.want_interest() == interest, r.want_mode() == mode, r.raw() == crate::ext::fd_raw(&file),
 //@ enditem
 //@ item src/sources/generic.rs / impl Generic<F, std::io::Error> / fn new_with_error props=C16 ret=r
 //@ spec
         ensures r.tok() is None, !r.has_poller(), r.has_file(),
+                r.want_interest() == interest, r.want_mode() == mode, r.raw() == crate::ext::fd_raw(&file),
 //@ enditem
 //@ close
 
